@@ -1,3 +1,5 @@
--- This module serves as the root of the `PilotaModel` library.
--- Import modules here that should be built as part of the library.
-import PilotaModel.Basic
+-- Root of the `PilotaModel` library.  bin/setup and bin/check build the property modules
+-- registered in bin/props*.py by name; this file only gathers the ones that are always present.
+import PilotaModel.Props.Tables
+import PilotaModel.Props.C01
+import PilotaModel.Props.C04
